@@ -93,6 +93,10 @@ class SimTor(CtlPeer):
     def _getinfo(self, rest):
         keys = rest.split()
         parts = []
+        unknown = [k for k in keys if self.info.get(k) is None or self.info[k]() is None]
+        if unknown:
+            # as Tor does: one line per unrecognised key
+            return Reply(552, [('mid', 'Unrecognized key "%s"' % k) for k in unknown[:-1]], 'Unrecognized key "%s"' % unknown[-1])
         for k in keys:
             fn = self.info.get(k)
             v = fn() if fn is not None else None
